@@ -255,6 +255,9 @@ class Index:
                 except SyntaxError as exc:
                     raise AnalysisError(f"cannot parse {path}: {exc}")
                 self.modules[name] = mod
+        # `match` statements whose patterns are plain type / value tests are read as the if / elif chains they abbreviate
+        from .desugar import desugar
+        self.desugared = {n: c for n, c in ((n, desugar(m.tree)) for n, m in self.modules.items()) if c}
         if self._normalise and not os.environ.get("SA_NO_CANON"):
             # E0: consistently renamed private names are read back under their confirmed spelling (sa/canon.py)
             from .canon import normalise
